@@ -20,7 +20,7 @@ func init() {
 	replayers["C04"] = func(raw json.RawMessage) (bool, string) {
 		var in c04Replay
 		json.Unmarshal(raw, &in)
-		obs := classifyCell(in.Program, in.C)
+		obs := classifyCell(in.Program, in.C, in.C2)
 		ok := c04AtLeast(obs, in.Reviewed)
 		return !ok, fmt.Sprintf("program %q (C=%v): observed class %s (%v %s), reviewed policy demands at least %s", in.Program, in.C, obs, obs.Kind, obs.Err, in.Reviewed)
 	}
@@ -28,7 +28,7 @@ func init() {
 
 type c04Replay struct {
 	Program  string
-	C        bool
+	C, C2    bool
 	Reviewed string
 }
 
@@ -180,22 +180,26 @@ func checkC04(r *core.Run) {
 	}
 	var cells, accepted int64
 	var classes sync.Map
+	var judge2 func(text string, c, c2 bool, reviewed, discr, input string)
 	judge := func(text string, c bool, reviewed, discr, input string) {
+		judge2(text, c, false, reviewed, discr, input)
+	}
+	judge2 = func(text string, c, c2 bool, reviewed, discr, input string) {
 		atomic.AddInt64(&cells, 1)
-		obs := classifyCell(text, c)
+		obs := classifyCell(text, c, c2)
 		if obs.Class != "reject" {
 			atomic.AddInt64(&accepted, 1)
 		}
 		classes.Store(obs.String(), true)
 		if !c04AtLeast(obs, reviewed) {
-			r.Witness("weaker-than-reviewed-policy", discr, input, fmt.Sprintf("program %s (C=%v): engine behaves as %s, the reviewed policy demands at least %s", core.Q(text), c, obs, reviewed), c04Replay{text, c, reviewed})
+			r.Witness("weaker-than-reviewed-policy", discr, input, fmt.Sprintf("program %s (C=%v C2=%v): engine behaves as %s, the reviewed policy demands at least %s", core.Q(text), c, c2, obs, reviewed), c04Replay{text, c, c2, reviewed})
 		}
 		// URL cells must show sanitizer and normalizer effects; enum cells refuse static partial values
 		if obs.Class == "URL" || obs.Class == "TRURLOrURL" {
 			p, _ := tmplx.Prepare(text)
 			if p != nil {
 				if rn := execOne(p, "a b\"c", c); rn.Kind == tmplx.OK && !strings.Contains(rn.Out, "a%20b%22c") {
-					r.Witness("url-not-normalized", discr, input, fmt.Sprintf("program %s: plain URL %q rendered as %s (normalizer did not run)", core.Q(text), "a b\"c", core.Q(rn.Out)), c04Replay{text, c, reviewed})
+					r.Witness("url-not-normalized", discr, input, fmt.Sprintf("program %s: plain URL %q rendered as %s (normalizer did not run)", core.Q(text), "a b\"c", core.Q(rn.Out)), c04Replay{text, c, c2, reviewed})
 				}
 			}
 		}
@@ -260,6 +264,19 @@ func checkC04(r *core.Run) {
 			judge(`<link href="{{$.P0}}" rel="`+spelling+`">`, false, "Typed{TrustedResourceURL}", "link-rel-after", "link href then rel="+spelling)
 		}
 	}
+	// duplicated rel attributes: browsers keep the first one
+	for _, a := range []string{"stylesheet", "icon", "alternate", "unknown", ""} {
+		for _, b := range []string{"stylesheet", "icon", "alternate", "unknown", ""} {
+			want := "Typed{TrustedResourceURL}"
+			for _, ok := range tab.LinkRelURL {
+				if ok == a {
+					want = "TRURLOrURL"
+				}
+			}
+			judge(`<link rel="`+a+`" rel="`+b+`" href="{{$.P0}}">`, false, want, "link-rel-duplicated", "link rel="+a+" rel="+b)
+			judge(`<link rel='`+a+`' REL="`+b+`" title="x" href="{{$.P0}}">`, false, want, "link-rel-duplicated", "link rel="+a+" REL="+b)
+		}
+	}
 	// element / attribute chosen by a conditional: accepted only if every alternative has the same reviewed class
 	keyAttrs := []string{"href", "src", "title", "style", "id"}
 	condEls := []string{"a", "img", "script", "iframe", "link", "track", "audio", "div", "base", "form", "input", "x-y", "embed", "area", "source", "video", "object", "textarea", "style", "button"}
@@ -311,13 +328,45 @@ func checkC04(r *core.Run) {
 			}
 		}
 	}
+	// '>' after the conditional (a void alternative resets the element), content of nested alternatives
+	for _, e1 := range condEls {
+		for _, e2 := range condEls {
+			cjobs = append(cjobs, cj{"{{if $.C}}<" + e1 + "{{else}}<" + e2 + "{{end}}>{{$.P0}}", combine(tab.Class(e1, ""), tab.Class(e2, "")), "conditional-element-then-content"})
+			cjobs = append(cjobs, cj{"{{if $.C}}<" + e1 + "{{else}}<" + e2 + "{{end}} title=\"x\">{{$.P0}}", combine(tab.Class(e1, ""), tab.Class(e2, "")), "conditional-element-then-content"})
+		}
+	}
+	contentEls := []string{"script", "style", "span", "title", "textarea", "br", "a", "iframe"}
+	for _, e1 := range contentEls {
+		for _, e2 := range contentEls {
+			for _, e3 := range contentEls {
+				rv := combine(tab.Class(e1, ""), tab.Class(e2, ""), tab.Class(e3, ""))
+				cjobs = append(cjobs, cj{"{{if $.C}}<" + e3 + "{{else}}{{if $.C2}}<" + e1 + "{{else}}<" + e2 + "{{end}}{{end}}>{{$.P0}}", rv, "nested-conditional-element-content"})
+				cjobs = append(cjobs, cj{"{{if $.C}}{{if $.C2}}<" + e1 + "{{else}}<" + e2 + "{{end}}{{else}}<" + e3 + "{{end}}>{{$.P0}}", rv, "nested-conditional-element-content"})
+			}
+		}
+	}
+	// attribute names assembled from pieces: the value must be judged by the name a browser sees
+	for _, e := range []string{"a", "img"} {
+		for _, a1 := range []string{"title", "data-x", "alt", "href", "x"} {
+			for _, a2 := range []string{"onclick", "href", "src", "style", "srcdoc", "title", "id"} {
+				cjobs = append(cjobs, cj{"<" + e + " " + a1 + "{{if $.C}} {{end}}" + a2 + "=\"{{$.P0}}\">", combine(tab.Class(e, a2), tab.Class(e, a1+a2)), "attribute-name-in-pieces"})
+				cjobs = append(cjobs, cj{"<" + e + " " + a1 + "{{if $.C}}=\"v\" {{end}}" + a2 + "=\"{{$.P0}}\">", combine(tab.Class(e, a2), tab.Class(e, a1+a2)), "attribute-name-in-pieces"})
+				cjobs = append(cjobs, cj{"<" + e + " " + a1 + "{{if $.C}}\n{{else}}\t{{end}}" + a2 + "=\"{{$.P0}}\">", tab.Class(e, a2), "attribute-name-in-pieces"})
+			}
+		}
+	}
 	core.ParallelFor(len(cjobs), func(i int) {
 		if r.Expired() {
 			return
 		}
 		j := cjobs[i]
 		for _, c := range []bool{true, false} {
-			judge(j.text, c, j.reviewed, j.discr, j.text)
+			for _, c2 := range []bool{true, false} {
+				if c2 && !strings.Contains(j.text, "$.C2") {
+					continue
+				}
+				judge2(j.text, c, c2, j.reviewed, j.discr, j.text)
+			}
 		}
 	})
 	if r.Expired() {
